@@ -55,7 +55,20 @@ VARIANTS = [
       *replace_stmt("flat_hessian_fn = jacfwd(flat_score_fn)",
                     "flat_hessian_fn = jacfwd(grad(lambda x: -0.5 * (x ** 2).sum()))"),
       note="information of a different function", expect_rule="C06.R5"),
+    V("c06_doc_ratio_inverted", "M", MK, "MHProposal",
+      lambda nd: isinstance(nd, ast.Expr) and isinstance(nd.value, ast.Constant)
+      and "q(" in str(nd.value.value),
+      lambda nd: ast.Expr(ast.Constant("Let q(x' | x) be the proposal density, then "
+                                       "log(q(x'|x) / q(x | x')) is the log_mh_correction.")),
+      note="documented convention is the reciprocal of what mh_step applies",
+      expect_rule="C06.R4"),
     # ---- twins
+    V("c06_t_doc_reworded", "T", MK, "MHProposal",
+      lambda nd: isinstance(nd, ast.Expr) and isinstance(nd.value, ast.Constant)
+      and "q(" in str(nd.value.value),
+      lambda nd: ast.Expr(ast.Constant("With the proposal density q(x' | x): the correction is "
+                                       "log q(x | x') - log q(x' | x).")),
+      note="same convention stated as a difference of logs"),
     V("c06_t_helper", "T", I, S,
       *replace_stmt("correction = bwd_log_prob - fwd_log_prob",
                     "log_ratio = bwd_log_prob - fwd_log_prob\ncorrection = log_ratio"),
